@@ -434,16 +434,19 @@ func (c *Ctx) innerChainRules(r *Report, prefix string, a *ikeAnchors) {
 	L := c.outputLenCall(em)
 	data := bc.Call.Args[2]
 	okPH, d2 := false, "data handed to BuildEncrypted is not ciphertext || make([]byte, L)"
-	if ap, ok := data.(*ssa.Call); ok && L != nil {
-		if bi, ok := ap.Call.Value.(*ssa.Builtin); ok && bi.Name() == "append" && len(ap.Call.Args) == 2 {
-			if mk, ok := ap.Call.Args[1].(*ssa.MakeSlice); ok && ef.LFOf(mk.Len).key() == ef.LFOf(L).key() {
-				// first arg: result 0 of encryptPayload
-				if ex, ok := ap.Call.Args[0].(*ssa.Extract); ok && ex.Index == 0 {
+	// concatenation normal form: append(cipher, make(L)...) and a buffer of len(cipher)+L filled by copy are the same
+	if L != nil {
+		if parts, ok := c.concatOf(ef, data, bc, 0); ok {
+			parts = dropEmpty(parts)
+			if len(parts) == 2 && parts[0].Kind == "slice" && parts[1].Kind == "zeros" && parts[1].Len.key() == ef.LFOf(L).key() {
+				if ex, ok := parts[0].Val.(*ssa.Extract); ok && ex.Index == 0 {
 					if call, ok := ex.Tuple.(*ssa.Call); ok && call.Call.StaticCallee() == a.encryptPayload {
 						okPH = true
 						d2 = "data = encryptPayload(...) || Zero(L), L = IntegInfo.GetOutputLength()"
 					}
 				}
+			} else {
+				d2 += " (found " + partsString(ef, parts) + ")"
 			}
 		}
 	}
